@@ -109,15 +109,18 @@ PROPS = {
               "wnaf_form replaces the digit buffer by digits d_i (0 or odd, |d_i| < 2^w) with sum d_i 2^i == c for every c with c + 2^w below the limb capacity, whatever it held before, and terminates; "
               "wnaf_exp returns [sum d_i 2^i]P for every such table and digit string with every table index in bounds; hence wnaf_exp(wnaf_table(P, w), wnaf_form(k, w)) == [k]P. "
               "The recommended window sizes (empirical_recommended_wnaf_* and the trait entry points, G1 and G2) lie in 2..=22 for every input. "
+              "wNAF contexts (real bodies): Wnaf::new().base(P, n) holds a window table of P for a window in 2..=22 and .scalar(k) on it returns [k]P and leaves table and window unchanged; "
+              "Wnaf::new().scalar(k) holds a digit string of k and .base(P) on it returns [k]P and leaves digits and window unchanged; shared() carries the computed half and the window over; "
+              "no method has a precondition on the previous contents of the buffers it refills, so every history of reuse re-establishes these invariants (each postcondition implies the next precondition). "
               "The 3-entry table path (real bodies, G1 and G2): precomp_3 stores [2^64]P, [2^128]P, [2^192]P; mul_precomp_3 builds the 16 subset sums of (P, [2^64]P, [2^128]P, [2^192]P) and returns [k]P for every 256-bit k "
               "(nibble extraction related to bit i of the four words by bit-vector lemmas over the code's own expressions).",
-        not_covered=["the Wnaf context methods (base / scalar / shared: type-state wrappers over AsRef / AsMut that call wnaf_table / wnaf_form / wnaf_exp in sequence) are not under contract: "
-                     "reuse-independence is carried by the three contracts having no precondition on the previous buffer contents; the refutation search drives the contexts with reuse histories",
+        not_covered=["the generic Wnaf::base<G> / Wnaf::scalar<G> are proved at the four (B, S) instances the crate's own API can produce (Vec<_>, &mut Vec<_>, &[_]); a foreign AsRef/AsMut implementation is outside the claim",
                      "ff::BitIterator itself (dependency; contract assumed)"],
         assumptions=[A['A3'], "ff::BitIterator contract assumed (dependency)", "group-level contracts of double / add_assign / add_assign_mixed / sub_assign are the statements of unit curve lifted through A3",
                      "wnaf_form sees PrimeFieldRepr through integer-level contracts of is_zero / is_odd / as_ref()[0] / From<u64> / sub_noborrow / add_nocarry / div2 (those the C08 Kani harnesses prove for FrRepr / FqRepr limb-wise); "
                      "FrRepr::num_bits <= 256 (C08 harness num_bits)",
                      "wnaf_exp carries two ghost (erased) parameters, the base point and the window, that its contract refers to",
+                     "rewrite R6m: the AsRef / AsMut receiver expressions of Wnaf::base<G> / scalar<G> are written out for Vec<_>, &mut Vec<_>, &[_] (the reborrow std's impls return)",
                      "rewrites R3s (for n in x.iter().rev()), R4b (for r in &CONST_ARRAY), R13 (integer-literal fallback i32 written out), R14 (operators on &i64 written with explicit deref)", A['TOOLS']],
     ),
     'C04': dict(
